@@ -74,6 +74,8 @@ class Fn:
                 return f"(some {lean_bytes(v)})", "bytes"
             err(n, f"constant {v!r} outside the subset")
         if isinstance(n, ast.Name):
+            if n.id in getattr(self, "pure_locals", {}):
+                return self.pure_locals[n.id]                        # a local bound to an expression that cannot raise
             if n.id in self.env:
                 ln, ty = self.env[n.id]
                 return f"(some {ln})", ty
@@ -133,6 +135,29 @@ class Fn:
             err(n, "keyword arguments")
         if isinstance(f, ast.Name) and f.id == "len" and len(n.args) == 1:
             return f"(vLen {self.typed(n.args[0], 'bytes')})", "nat"
+        if isinstance(f, ast.Name) and f.id in ("any", "all") and len(n.args) == 1 \
+                and isinstance(n.args[0], (ast.GeneratorExp, ast.ListComp)) and len(n.args[0].generators) == 1:
+            g = n.args[0].generators[0]
+            it = g.iter
+            fns_ = None
+            if isinstance(it, ast.Name) and it.id in getattr(self, "checker_tuples", {}):
+                fns_ = self.checker_tuples[it.id]
+            elif isinstance(it, (ast.Tuple, ast.List)) and it.elts and all(
+                    isinstance(e, ast.Attribute) and isinstance(e.value, ast.Name) and e.value.id == "DataChecker"
+                    and e.attr in self.funcs for e in it.elts):
+                fns_ = [e.attr for e in it.elts]
+            elt = n.args[0].elt
+            if fns_ and not g.ifs and not g.is_async and isinstance(g.target, ast.Name) and isinstance(elt, ast.Call) \
+                    and isinstance(elt.func, ast.Name) and elt.func.id == g.target.id and not elt.keywords and len(elt.args) == 1 \
+                    and isinstance(elt.args[0], ast.Name) and self.env.get(elt.args[0].id, (None, None))[1] == "bytes":
+                # any(c(x) for c in (f1, f2, …)) evaluates f1(x), f2(x), … in order and stops at the first true one: the or-chain
+                arg = self.env[elt.args[0].id][0]
+                op = "vOr" if f.id == "any" else "vAnd"
+                out = f"({fns_[-1]} {arg})"
+                for fn_ in reversed(fns_[:-1]):
+                    out = f"({op} ({fn_} {arg}) {out})"
+                return out, "bool"
+            err(n, f"{f.id}() over this iterable is outside the subset")
         if isinstance(f, ast.Name) and f.id == "bool" and len(n.args) == 1:
             return self.typed(n.args[0], "bool"), "bool"
         if isinstance(f, ast.Name) and f.id == "unpack_from" and len(n.args) in (2, 3):
@@ -225,10 +250,30 @@ class Fn:
             if isinstance(tgt, ast.Name) and self.is_self_attr(s.value, ["overlay", "settings", "peer_flags"]):
                 self.env[tgt.id] = ("peer_flags", "flags")          # local alias of the configured flag set
                 return nxt(ind)
+            if isinstance(tgt, ast.Name) and isinstance(s.value, (ast.Tuple, ast.List)) and s.value.elts and all(
+                    isinstance(e, ast.Attribute) and isinstance(e.value, ast.Name) and e.value.id == "DataChecker"
+                    and e.attr in self.funcs for e in s.value.elts):
+                if not hasattr(self, "checker_tuples"):
+                    self.checker_tuples = {}
+                self.checker_tuples[tgt.id] = [e.attr for e in s.value.elts]     # a local tuple of classifier functions
+                return nxt(ind)
             if isinstance(tgt, ast.Name):
+                before = self.raising
                 v, ty = self.expr(s.value)
                 if ty not in ("nat", "bytes", "bool"):
                     err(s, "assignment of a tuple to a single name")
+                assigned_once = sum(1 for x in ast.walk(self.fn_node) if isinstance(x, ast.Name) and x.id == tgt.id
+                                    and isinstance(x.ctx, ast.Store)) == 1 if getattr(self, "fn_node", None) is not None else False
+                operands_stable = all(sum(1 for y in ast.walk(self.fn_node) if isinstance(y, ast.Name) and y.id == x.id
+                                          and isinstance(y.ctx, ast.Store)) <= 1
+                                      for x in ast.walk(s.value) if isinstance(x, ast.Name)) if assigned_once else False
+                if self.raising == before and "could_be_" not in v and assigned_once and operands_stable and tgt.id not in self.env:
+                    # pure (no unpack / index / classifier call inside, so it cannot raise and has no effect): using the name
+                    # means the expression; evaluating it earlier or more often changes nothing
+                    if not hasattr(self, "pure_locals"):
+                        self.pure_locals = {}
+                    self.pure_locals[tgt.id] = (v, ty)
+                    return nxt(ind)
                 self.env[tgt.id] = (tgt.id, ty)
                 return f"{pad}vLet1 {v} fun {tgt.id} =>\n{nxt(ind)}"
             if isinstance(tgt, ast.Tuple) and len(tgt.elts) == 2 and all(isinstance(e, ast.Name) for e in tgt.elts):
@@ -340,6 +385,7 @@ def translate():
             err(f, f"DataChecker.{f.name}: unexpected parameters")
         t = Fn(f.name, {"data": ("data", "bytes")}, consts, set(names), False)
         t.int_consts = int_consts
+        t.fn_node = f
         body = t.block(f.body, None, 1)
         out.append(f"/-- exit_socket.py l.{f.lineno}: DataChecker.{f.name} -/\ndef {f.name} (data : Bytes) : V Bool :=\n{body}\n")
         names.add(f.name)
@@ -352,6 +398,7 @@ def translate():
         raise TranslatorError(f"{SRC}: TunnelExitSocket.is_allowed(self, data) not found")
     t = Fn("is_allowed", {"data": ("data", "bytes")}, consts, set(names), True)
     t.int_consts = int_consts
+    t.fn_node = ia[0]
     body = t.block(ia[0].body, None, 1)
     out.append(f"/-- exit_socket.py l.{ia[0].lineno}: TunnelExitSocket.is_allowed; `peer_flags` = overlay.settings.peer_flags, "
                f"`pfx` = overlay.get_prefix() -/\n"
